@@ -131,6 +131,11 @@ func (tm *typesMap) SetFuncName(funcName string, typs ...types.Type) (string, er
 		if tm.dedup {
 			return fName, nil
 		}
+		if ts, ok := tm.funcToTyps[funcName]; ok && tm.autoname && !eq(ts, typs) {
+			// the requested name belongs to a function for other types, so this call is in conflict with that function and not a
+			// second name for its own types: it is renamed to the function that an earlier call with these types was renamed to.
+			return fName, nil
+		}
 		return "", fmt.Errorf("ambigious function names for type %s = (%s | %s)", typs, fName, funcName)
 	}
 	if ts, ok := tm.funcToTyps[funcName]; ok {
